@@ -432,6 +432,67 @@ def opStopCrash (req : Json) : Except String Json := do
       ("final", .str (match d.final with | .complete _ => "complete" | .absent => "absent" | .partialWrite => "partial"))])
   pure (Json.mkObj [("ops", .arr ((stopOps n).map (fun o => Json.str (opName o))).toArray), ("states", .arr states.toArray)])
 
+/-- JSON `null` = absent, string = given. -/
+def optStrOf (j : Json) : Except String (Option Str) :=
+  match j with
+  | .null => pure none
+  | .str s => pure (some s.toList)
+  | _ => throw "expected string or null"
+
+def optListOf (j : Json) : Except String (Option (List Str)) :=
+  match j with
+  | .null => pure none
+  | .arr _ => do pure (some (← strList j))
+  | _ => throw "expected list or null"
+
+def boolOf (j : Json) : Except String Bool :=
+  match j with
+  | .bool b => pure b
+  | _ => throw "expected bool"
+
+def extrasOf (j : Json) : Except String LinkExtras := do
+  let command ← strList (fieldD j "command" (.arr #[]))
+  let byp ← match fieldD j "byproducts" .null with
+    | .null => pure none
+    | b => do
+      let rv := ((fieldD b "return-value" (.num 0)).getInt?).toOption.getD 0
+      pure (some ({ returnValue := rv, stdout := ← toStr (fieldD b "stdout" (.str "")), stderr := ← toStr (fieldD b "stderr" (.str "")) } : Byproducts))
+  let env ← optStrOf (fieldD j "environment" .null)
+  pure { command := command, byproducts := byp, environment := env }
+
+def extrasJson (e : LinkExtras) : Json :=
+  Json.mkObj [("command", .arr (e.command.map ofStr).toArray),
+    ("byproducts", match e.byproducts with
+      | none => .null
+      | some b => Json.mkObj [("return-value", .num b.returnValue), ("stdout", ofStr b.stdout), ("stderr", ofStr b.stderr)]),
+    ("environment", match e.environment with | none => .null | some t => ofStr t)]
+
+def digestDictOf (j : Json) : Except String (Dict Str RecVal) := do
+  (← pairs j).mapM (fun (k, v) => do pure ((← toStr k), RecVal.digest (← toStr v)))
+
+/-- `in_toto_record_stop` as a function of the preliminary record, the key, the products recorded at
+stop and the optional arguments: the final link, or the error class. -/
+def opRecordStop (req : Json) : Except String Json := do
+  let key ← toStr (← field req "key")
+  let products ← digestDictOf (← field req "products")
+  let given ← extrasOf (fieldD req "given" (Json.mkObj []))
+  let prelim ← match fieldD req "prelim" .null with
+    | .null => pure (FState.absent : FState Prelim)
+    | .str "partial" => pure FState.partialWrite
+    | pj => do
+      pure (FState.complete { materials := ← digestDictOf (← field pj "materials"), signer := ← toStr (← field pj "signer"),
+                               intact := ← boolOf (← field pj "intact"), extras := ← extrasOf (fieldD pj "extras" (Json.mkObj [])) })
+  match recordStop key products { prelim := prelim, final := .absent } given with
+  | .error e => pure (errJson e)
+  | .ok d =>
+    match d.final with
+    | .complete l =>
+      let dictJson (x : Dict Str RecVal) : Json := .arr (x.map (fun (k, v) => Json.arr #[ofStr k, recValJson v])).toArray
+      pure (okJson (Json.mkObj [("materials", dictJson l.materials), ("products", dictJson l.products), ("signer", ofStr l.signer),
+        ("extras", extrasJson l.extras),
+        ("prelim_after", .str (match d.prelim with | .absent => "absent" | .complete _ => "complete" | .partialWrite => "partial"))]))
+    | _ => throw "no final link"
+
 def opCliStatus (req : Json) : Except String Json := do
   let tool ← match (← field req "tool") with
     | .str "verify" => pure Tool.verify | .str "sign" => pure Tool.sign | .str "sign_verify" => pure Tool.signVerify
@@ -451,24 +512,6 @@ def outcomeOf (j : Json) : Except String CliOutcome :=
   | .str "load" => pure CliOutcome.loadFailure | .str "sig" => pure CliOutcome.sigCheckFailed
   | .str "fail" => pure CliOutcome.libFailure | .str "differ" => pure CliOutcome.differences
   | _ => throw "bad outcome"
-
-/-- JSON `null` = absent, string = given. -/
-def optStrOf (j : Json) : Except String (Option Str) :=
-  match j with
-  | .null => pure none
-  | .str s => pure (some s.toList)
-  | _ => throw "expected string or null"
-
-def optListOf (j : Json) : Except String (Option (List Str)) :=
-  match j with
-  | .null => pure none
-  | .arr _ => do pure (some (← strList j))
-  | _ => throw "expected list or null"
-
-def boolOf (j : Json) : Except String Bool :=
-  match j with
-  | .bool b => pure b
-  | _ => throw "expected bool"
 
 def keyArgsOf (a : Json) : Except String KeyArgs := do
   let gpg ← match (← field a "gpg") with
@@ -540,6 +583,7 @@ def dispatch (op : String) (req : Json) : Except String Json :=
   | "stop_crash" => opStopCrash req
   | "cli_status" => opCliStatus req
   | "cli_main" => opCliMain req
+  | "record_stop" => opRecordStop req
   | _ => throw s!"unknown op {op}"
 
 def handle (line : String) : String :=
